@@ -16,6 +16,7 @@ import SkNet.Lemmas.SplitAgree
 import SkNet.Lemmas.MergeW
 import SkNet.Lemmas.ParisMono
 import SkNet.Lemmas.Reducible
+import SkNet.Lemmas.ParisTerm
 
 namespace SkNet.C07
 open SkNet SkNet.Dendro SkNet.Hier
@@ -589,5 +590,93 @@ example :
   decide +kernel
 
 end reducibleLinkage
+
+/-! ### Paris terminates -/
+
+section parisTerminates
+open SkNet.Agg SkNet.Paris
+
+/-- **The nearest-neighbour chain of Paris terminates** (`paris_terminates`): for every rounding function (exact
+    arithmetic, or the float32 rounding of the C variables — only comparisons and the symmetry of the similarity
+    are used), every symmetric weighted graph on `n` nodes (`NbInv`: symmetric keys and weights in the dict of
+    dicts) and all node weights, `Paris.fit` run with fuel at least `(n + 1)·(4n² + 3)` never runs out of fuel: it
+    returns a dendrogram (valid by `paris_valid`) or raises.
+    Measure: the number of clusters left, then — between two merges the graph is fixed — the rank of the pair on
+    top of the chain in the finite order (similarity, then minus the sum of the two ids): along the chain the
+    similarity never decreases, and while it stays the same the next node has a smaller id than the node two
+    places below (ties go to the smaller id), so the pair climbs strictly. -/
+theorem paris_terminates (round32 : ℚ → ℚ) (csr : List (List (Nat × ℚ))) (outW inW : List ℚ) (reorder : Bool)
+    (hsym : NbInv (AggGraph.init csr outW inW).nb csr.length) (fuel : Nat)
+    (hfuel : (csr.length + 1) * (2 * csr.length * (2 * csr.length) + 3) ≤ fuel) :
+    Paris.fit round32 fuel (AggGraph.init csr outW inW) reorder ≠ .ok none := by
+  have hT : TInv csr.length ({ g := AggGraph.init csr outW inW, chain := [], rows := [], comps := [] } : PState ℚ) :=
+    ⟨⟨_, pinv_init csr outW inW⟩, hsym⟩
+  have hmu : mu round32 (2 * csr.length)
+      ({ g := AggGraph.init csr outW inW, chain := [], rows := [], comps := [] } : PState ℚ) < fuel := by
+    unfold mu pot
+    have : (AggGraph.init csr outW inW).sizes.length = csr.length := by simp [AggGraph.init]
+    simp only [this]
+    rw [Nat.succ_mul] at hfuel
+    omega
+  have hloop := chainLoop_terminates round32 (AggGraph.init csr outW inW).next fuel _ hT hmu
+  unfold Paris.fit fitRows
+  simp only [bind, Except.bind]
+  cases hc : chainLoop round32 (AggGraph.init csr outW inW).next fuel
+      { g := AggGraph.init csr outW inW, chain := [], rows := [], comps := [] } with
+  | error e => simp
+  | ok r =>
+    cases r with
+    | none => exact absurd hc hloop
+    | some st =>
+      simp only
+      cases joinComponents st.g.next st.comps st.rows with
+      | error e => simp
+      | ok rows =>
+        simp only [pure, Except.pure]
+        cases reorder with
+        | false => simp
+        | true =>
+          simp only [if_true]
+          cases reorderDendrogram rows with
+          | error e => simp [Except.map]
+          | ok D => simp [Except.map]
+
+/-- non-vacuity: the graph with one edge between two nodes satisfies the hypothesis, and with the fuel of the
+    theorem `Paris.fit` returns a valid dendrogram -/
+example : NbInv (AggGraph.init [[(1, (1 : ℚ) / 2)], [(0, 1 / 2)]] [1 / 2, 1 / 2] [1 / 2, 1 / 2]).nb 2 ∧
+    (match Paris.fit (α := ℚ) id 57 (AggGraph.init [[(1, (1 : ℚ) / 2)], [(0, 1 / 2)]] [1 / 2, 1 / 2] [1 / 2, 1 / 2])
+        true with
+      | .ok (some D) => ValidDendro 2 D
+      | _ => false) = true := by
+  refine ⟨?_, by decide +kernel⟩
+  have hnb : (AggGraph.init [[(1, (1 : ℚ) / 2)], [(0, 1 / 2)]] [1 / 2, 1 / 2] [1 / 2, 1 / 2]).nb =
+      [(0, [(1, 1 / 2)]), (1, [(0, 1 / 2)])] := by decide +kernel
+  rw [hnb]
+  have hrow : ∀ x, row ([(0, [(1, (1 : ℚ) / 2)]), (1, [(0, 1 / 2)])] : Dict (Dict ℚ)) x =
+      if x = 0 then [(1, 1 / 2)] else if x = 1 then [(0, 1 / 2)] else [] := by
+    intro x
+    rcases x with _ | _ | x <;> simp [row, Dict.get?]
+  refine ⟨?_, ?_, ?_, ?_, ?_⟩
+  · intro x
+    rw [hrow]
+    rcases x with _ | _ | x <;> simp [Dict.keys]
+  · intro x y
+    unfold K
+    rw [hrow, hrow]
+    rcases x with _ | _ | x <;> rcases y with _ | _ | y <;> simp [Dict.contains, Dict.get?]
+  · intro x z hz
+    unfold K
+    rw [hrow]
+    rcases x with _ | _ | x <;> simp [Dict.contains, Dict.get?] <;> omega
+  · intro x y
+    unfold getEntry
+    rw [hrow, hrow]
+    rcases x with _ | _ | x <;> rcases y with _ | _ | y <;> simp [Dict.get?]
+  · intro x y
+    unfold getEntry
+    rw [hrow]
+    rcases x with _ | _ | x <;> rcases y with _ | _ | y <;> simp [Dict.get?]
+
+end parisTerminates
 
 end SkNet.C07
